@@ -163,7 +163,7 @@ func HarnessPack() {
 
 	// ---- C20: the metadata describes the slug
 	verif.Assert("C20-file-count", len(meta.Files) == len(written))
-	var sum, hdrSum int64
+	var sum, hdrSum, sizeSum int64
 	for i, e := range written {
 		if i < len(meta.Files) {
 			verif.Assert("C20-file-name-in-order", meta.Files[i] == e.Name)
@@ -172,9 +172,11 @@ func HarnessPack() {
 			sum += int64(len(e.Body))
 		}
 		hdrSum += int64(len(e.Body))
+		sizeSum += e.Size
 	}
 	verif.Assert("C20-size-is-sum-of-bodies", meta.Size == sum)
 	verif.Assert("C20-only-regular-entries-have-bodies", sum == hdrSum)
+	verif.Assert("C20-size-is-sum-of-sizes-recorded-in-headers", meta.Size == sizeSum)
 	if len(written) > 0 {
 		verif.Reach("entries-written")
 	}
@@ -210,7 +212,8 @@ func HarnessPack() {
 		}
 	}
 	src := envSnapshot(packSrc)
-	err2 := Unpack(envTarReader(written, false), "/w/out")
+	outDst := []string{"/w/out", "/w/out/", "/w//out", "/w/./out", "/w/e/../out"}[verif.Choose("out.spelling", verif.Param("nOut", 1))]
+	err2 := Unpack(envTarReader(written, false), outDst)
 	if allRelative && len(p.allowSymlinkTargets) == 0 { // an allow-listed link needs the same allow-list on the unpacking side
 		verif.Reach("fed-back")
 		verif.Assert("C05-unpack-accepts-what-pack-produced", err2 == nil)
@@ -363,6 +366,12 @@ func HarnessC19ExtCycle() {
 	_, err := p.Pack(packSrc, envWriter())
 	verif.Reach("ext-cycle-packed")
 	verif.ObserveBool("ok", err == nil)
+	if err != nil {
+		// nothing else can go wrong in this world: every refusal is a policy rejection and has to be
+		// recognisable as one, also when it is raised below a dereferenced directory
+		_, isIllegal := err.(*IllegalSlugError)
+		verif.Assert("C12-policy-rejection-is-an-illegal-slug-error", isIllegal)
+	}
 }
 
 // HarnessC19Special: special files in and around the tree - a fifo in the tree, a fifo as the rule
